@@ -118,3 +118,42 @@ func implRender(src string, ctx pongo2.Context) (r renderOut) {
 	}
 	return renderOut{Out: out}
 }
+
+// implRenderVia compiles src through another entry point of the set and executes it once.
+// "bytes": FromBytes with a buffer the caller reuses for something else before executing;
+// "file": FromFile through the loader; "cache": FromCache (twice, second is the cached one).
+func implRenderVia(how, src string, ctx pongo2.Context) (r renderOut) {
+	defer func() {
+		if p := recover(); p != nil {
+			r.Panicked = true
+			r.PanicMsg = fmt.Sprint(p)
+		}
+	}()
+	set := pongo2.NewSet("t", &memLoader{files: map[string]string{"/f.tpl": src}})
+	var tpl *pongo2.Template
+	var err error
+	switch how {
+	case "bytes":
+		buf := []byte(src)
+		tpl, err = set.FromBytes(buf)
+		// the buffer belongs to the caller: it is reused for the next template
+		next := []byte("{% comment %}next template{% endcomment %}{{ other }}<p>")
+		for i := range buf {
+			buf[i] = next[i%len(next)]
+		}
+	case "file":
+		tpl, err = set.FromFile("/f.tpl")
+	case "cache":
+		if _, err = set.FromCache("/f.tpl"); err == nil {
+			tpl, err = set.FromCache("/f.tpl")
+		}
+	}
+	if err != nil {
+		return renderOut{Err: "compile", ErrMsg: err.Error()}
+	}
+	out, err := tpl.Execute(ctx)
+	if err != nil {
+		return renderOut{Err: "exec", ErrMsg: err.Error()}
+	}
+	return renderOut{Out: out}
+}
